@@ -104,7 +104,7 @@ func checkMapContract(c *mon.Case, what string, node ipld.Node, probes []string,
 			}
 		})
 	}
-	lookup4 := func(key string) (found [4]bool, links [4]string, errs [4]error) {
+	lookup4 := func(key string) (found [5]bool, links [5]string, errs [5]error) {
 		get := func(i int, f func() (ipld.Node, error)) {
 			c.Guard("lookup", func() {
 				v, err := f()
@@ -134,7 +134,8 @@ func checkMapContract(c *mon.Case, what string, node ipld.Node, probes []string,
 		} else {
 			found[3], links[3] = found[0], links[0]
 		}
-		c.Count("lookups_crosschecked", 4)
+		get(4, func() (ipld.Node, error) { return node.LookupByNode(pbString(key)) })
+		c.Count("lookups_crosschecked", 5)
 		return
 	}
 	keys := append([]string(nil), order...)
@@ -143,7 +144,7 @@ func checkMapContract(c *mon.Case, what string, node ipld.Node, probes []string,
 	}
 	for _, k := range keys {
 		found, links, errs := lookup4(k)
-		for i := 0; i < 4; i++ {
+		for i := 0; i < 5; i++ {
 			if !found[i] {
 				c.Violation(fmt.Sprintf("C15|yielded-key-not-found|entry%d", i), "%s: key %q was yielded by iteration but lookup entry point %d does not find it (%v)", what, k, i, errs[i])
 				break
@@ -163,7 +164,7 @@ func checkMapContract(c *mon.Case, what string, node ipld.Node, probes []string,
 			continue
 		}
 		found, links, _ := lookup4(p)
-		for i := 0; i < 4; i++ {
+		for i := 0; i < 5; i++ {
 			if found[i] {
 				c.Violation(fmt.Sprintf("C15|unyielded-key-found|entry%d", i), "%s: key %q was never yielded but lookup entry point %d finds %s", what, p, i, links[i])
 				break
